@@ -14,6 +14,7 @@ mod poolobs;
 mod route;
 mod svc;
 mod util;
+mod wire;
 
 fn main() {
     let args: Vec<String> = std::env::args().collect();
@@ -29,6 +30,7 @@ fn main() {
         "poolobs" => poolobs::run(rest),
         "client" => client::run(rest),
         "cli" => cli::run(rest),
+        "wire" => wire::run(rest),
         "clientreal" => client::run_real(rest),
         "clienttrace" => client::run_trace(rest),
         "listen" => listen::run(rest),
